@@ -836,16 +836,16 @@ func (v *Validator) typeOfHas(env *requestEnv, n ast.NodeTypeHas, caps capabilit
 	resultType := v.hasResultType(t, n.Value)
 
 	if _, isBool := resultType.(typeBool); isBool {
-		if varName := exprVarName(n.Arg); varName != "" {
-			if caps.has(capability{varName: varName, attr: n.Value}) {
+		if path := exprCapPath(n.Arg); path != nil {
+			if caps.has(capability{path: path, attr: n.Value}) {
 				resultType = typeTrue{}
 			}
 		}
 	}
 
 	newCaps := caps
-	if varName := exprVarName(n.Arg); varName != "" {
-		newCaps = caps.add(capability{varName: varName, attr: n.Value})
+	if path := exprCapPath(n.Arg); path != nil {
+		newCaps = caps.add(capability{path: path, attr: n.Value})
 	}
 
 	return resultType, newCaps, nil
@@ -909,8 +909,8 @@ func (v *Validator) typeOfAccess(env *requestEnv, n ast.NodeTypeAccess, caps cap
 
 	// Check if the attribute is optional and requires a `has` guard
 	if !attrType.required {
-		varName := exprVarName(n.Arg)
-		if varName == "" || !caps.has(capability{varName: varName, attr: n.Value}) {
+		path := exprCapPath(n.Arg)
+		if path == nil || !caps.has(capability{path: path, attr: n.Value}) {
 			errs = append(errs, v.unsafeOptionalAccessError(env, t, n.Value, exprVarName(n.Arg)))
 		}
 	}
@@ -1065,10 +1065,10 @@ func (v *Validator) typeOfHasTag(env *requestEnv, n ast.NodeTypeHasTag, caps cap
 	}
 
 	newCaps := caps
-	if varName := exprVarName(n.Left); varName != "" {
+	if path := exprCapPath(n.Left); path != nil {
 		tagKey := tagCapabilityKey(n.Right)
 		if tagKey != "" {
-			newCaps = caps.add(capability{varName: varName, attr: types.String("__tag:" + tagKey)})
+			newCaps = caps.add(capability{path: path, attr: tagKey, tag: true})
 		}
 	}
 
@@ -1115,9 +1115,9 @@ func (v *Validator) typeOfGetTag(env *requestEnv, n ast.NodeTypeGetTag, caps cap
 		}
 	}
 
-	varName := exprVarName(n.Left)
+	path := exprCapPath(n.Left)
 	tagKey := tagCapabilityKey(n.Right)
-	hasCapability := varName != "" && tagKey != "" && caps.has(capability{varName: varName, attr: types.String("__tag:" + tagKey)})
+	hasCapability := path != nil && tagKey != "" && caps.has(capability{path: path, attr: tagKey, tag: true})
 
 	if hasCapability {
 		// Capability is only set by hasTag when entity supports tags
@@ -1418,6 +1418,21 @@ func isEntityOrSetOfEntity(t cedarType) bool {
 	return false
 }
 
+// exprCapPath returns the capability path of a variable or of a chain of attribute accesses
+// rooted at a variable, and nil for any other expression.
+func exprCapPath(n ast.IsNode) capPath {
+	if nd, ok := n.(ast.NodeTypeVariable); ok {
+		return nd.Name
+	}
+	if nd, ok := n.(ast.NodeTypeAccess); ok {
+		if base := exprCapPath(nd.Arg); base != nil {
+			return capAccess{base: base, attr: nd.Value}
+		}
+	}
+	return nil
+}
+
+// exprVarName renders a variable-rooted access chain for error messages ("" for any other expression).
 func exprVarName(n ast.IsNode) types.String {
 	if nd, ok := n.(ast.NodeTypeVariable); ok {
 		return nd.Name
